@@ -59,7 +59,13 @@ func (c *Config) defaults() {
 		c.Workers = 16
 	}
 	if c.SolverName == "" {
-		c.SolverName = "z3"
+		// z3 5.1.0 (z3-new): 4.8.12 spends ~80x longer on the define-fun
+		// heavy incremental scripts this engine produces (measured); 4.8.12 and
+		// cvc5 remain the one-shot fall-back / cross-check back ends.
+		c.SolverName = "z3-new"
+		if s := os.Getenv("SYMGO_SOLVER"); s != "" {
+			c.SolverName = s
+		}
 	}
 	if c.TimeoutMs == 0 {
 		c.TimeoutMs = 3000
@@ -143,6 +149,7 @@ type Machine struct {
 	fb             FallbackStats
 	model          map[string]uint64 // a model of the current path condition, or nil
 	replayPos      int
+	axioms         int
 }
 
 type pathResult struct {
@@ -542,6 +549,8 @@ func (p *Program) Explore(cfg Config) *Result {
 				res.Solver.Unsat += solver.Stats.Unsat
 				res.Solver.Unknown += solver.Stats.Unknown
 				res.Solver.Seconds += solver.Stats.Seconds
+				res.Solver.BytesSent += solver.Stats.BytesSent
+				res.Solver.SendSeconds += solver.Stats.SendSeconds
 				mu.Unlock()
 				solver.Close()
 			}()
@@ -752,6 +761,20 @@ func (p *Program) runPath(cfg *Config, fn *ssa.Function, prefix []pdec, solver *
 	t.wake <- struct{}{}
 	pr := <-m.result
 	// need a model for samples / panic / deadlock reports: only when useful
+	if m.axioms > 0 && cfg.ReplayVals == nil && pr.abort == nil && !pr.panicked {
+		// model axioms were added without feasibility queries: a completed
+		// path only counts if its path condition is satisfiable
+		func() {
+			defer func() {
+				if r := recover(); r != nil {
+					pr = pathResult{abort: &engineAbort{abortSolver, "solver failure while checking satisfiability of a path with model axioms"}}
+				}
+			}()
+			if v := m.checkSat(m.ts.True); v != Sat {
+				pr = pathResult{abort: &engineAbort{abortSolver, "path with model axioms is not satisfiable (" + v.String() + "): vacuous"}}
+			}
+		}()
+	}
 	isDeadlock := pr.abort != nil && pr.abort.kind == abortDeadlock
 	if pr.panicked || isDeadlock || len(m.forks) > 0 || len(prefix) == 0 {
 		func() {
@@ -807,9 +830,9 @@ func (m *Machine) noteFunc(fn *ssa.Function, fi *fnInfo) {
 
 func (r *Result) Summary() string {
 	var sb strings.Builder
-	fmt.Fprintf(&sb, "%s: paths=%d completed=%d pruned=%d panicked=%d deadlocked=%d decisions=%d asserts=%d steps=%d solver(sat=%d unsat=%d unknown=%d %.1fs) wall=%.1fs",
+	fmt.Fprintf(&sb, "%s: paths=%d completed=%d pruned=%d panicked=%d deadlocked=%d decisions=%d asserts=%d steps=%d solver(sat=%d unsat=%d unknown=%d %.1fs; sent %dMB in %.1fs) wall=%.1fs",
 		r.Harness, r.Paths, r.Completed, r.Infeasible, r.Panicked, r.Deadlocked, r.Decisions, r.Asserts, r.Steps,
-		r.Solver.Sat, r.Solver.Unsat, r.Solver.Unknown, r.Solver.Seconds, r.Wall)
+		r.Solver.Sat, r.Solver.Unsat, r.Solver.Unknown, r.Solver.Seconds, r.Solver.BytesSent>>20, r.Solver.SendSeconds, r.Wall)
 	if len(r.Violations) > 0 {
 		fmt.Fprintf(&sb, " VIOLATIONS=%d", len(r.Violations))
 	}
